@@ -46,7 +46,10 @@ func ExtendedProximity(one, other []byte) (ret uint8) {
 		oxo := one[i] ^ other[i]
 		for j := uint8(0); j < m; j++ {
 			if (oxo>>(7-j))&0x01 != 0 {
-				return i*8 + j
+				if po := i*8 + j; po < ExtendedPO {
+					return po
+				}
+				return ExtendedPO
 			}
 		}
 	}
